@@ -9,7 +9,7 @@ correct -> replicate -> marshal under recover with a watchdog, feeds seeded
 arbitrary bytes / JSON / YAML to the parsers and a ninth of the mutants to the
 bulk processor (build, validate, correct, replicate).  OutcomeTrace.tla judges
 every behaviour: each step returns ok or an error with a documented key."""
-import json, re
+import json, os, re
 from . import core
 
 SITE = re.compile(r"\[([^ \]]*)\]")
@@ -35,13 +35,42 @@ def validate(ctx, trace, shards):
     return tot
 
 
+def supervised(ctx, cmd):
+    """Runs the crash driver; if the process is aborted by a fatal runtime error (stack overflow, concurrent map
+    write, out of memory ...) that is a violation of the property, attributed to the input it was processing."""
+    import base64, re
+    cur = ctx.path("current-input")
+    p = ctx.run(cmd + ["-cur", cur], timeout=3400, check=False)
+    if p.returncode == 0:
+        return
+    m = re.search(r"^fatal error: (.*)$", p.stderr, re.M)
+    if not m:
+        raise core.Infra("command failed (%d): %s\n%s" % (p.returncode, " ".join(cmd[:4]), p.stderr[-2000:]))
+    data = open(cur, "rb").read() if os.path.exists(cur) else b""
+    frames = [f for f in re.findall(r"^(github\.com/invopop/gobl[^\s(]*)\(", p.stderr, re.M)]
+    site = frames[0].replace("github.com/invopop/gobl/", "").replace("github.com/invopop/gobl.", "") if frames else "?"
+    # confirm with the input alone
+    one = ctx.path("abort-input")
+    open(one, "wb").write(data)
+    p2 = ctx.run([cmd[0], "crash-one", "-file", one], timeout=600, check=False)
+    confirmed = p2.returncode != 0 and "fatal error" in p2.stderr
+    ctx.disagreements.append({"cls": "crash-abort:%s:%s" % (m.group(1).strip(), site),
+                              "what": "the process was aborted (fatal error: %s) in %s while processing an input of %d bytes%s: %s" % (
+                                  m.group(1).strip(), site, len(data), " (confirmed with the input alone)" if confirmed else " (NOT reproduced with the input alone)",
+                                  data[:200].decode("utf-8", "replace")),
+                              "family": "abort", "replay": {"abort": True, "input_b64": base64.b64encode(data).decode()}})
+    if not confirmed:
+        raise core.Infra("the crash driver was aborted (%s) but the recorded input does not reproduce it" % m.group(1))
+    ctx.notes.append("the crash driver was aborted by a fatal error; the inputs after that point were not explored in this run")
+
+
 def run(ctx):
     vd, bulk = ctx.vdrive(), ctx.goblverif()
     q = ctx.quick()
     plan = ctx.path("plan.ndjson")
     ctx.model_check("MCOutcome", "MCOutcome.cfg", workers=4, env={"OUT": plan})
-    ctx.run([vd, "crash-run", "-repo", core.REPO, "-plan", plan, "-seed", str(ctx.seed), "-cap", "45" if q else "0",
-             "-bytes", "1000" if q else "60000", "-bulk", bulk, "-out", ctx.path("trace.ndjson")], timeout=3400)
+    supervised(ctx, [vd, "crash-run", "-repo", core.REPO, "-plan", plan, "-seed", str(ctx.seed), "-cap", "45" if q else "0",
+                     "-bytes", "1000" if q else "60000", "-bulk", bulk, "-out", ctx.path("trace.ndjson")])
     tot = validate(ctx, ctx.path("trace.ndjson"), 16)
     lines = open(ctx.path("trace.ndjson")).read().splitlines()
     samples = []
@@ -63,6 +92,17 @@ def replay(ctx, path):
     ctx.tier = "thorough"
     rp = json.load(open(path))
     vd, bulk = ctx.vdrive(), ctx.goblverif()
+    if rp["cases"] and rp["cases"][0] and rp["cases"][0].get("abort"):
+        import base64
+        one = ctx.path("abort-input")
+        open(one, "wb").write(base64.b64decode(rp["cases"][0]["input_b64"]))
+        p = ctx.run([vd, "crash-one", "-file", one], timeout=600, check=False)
+        if p.returncode != 0 and "fatal error" in p.stderr:
+            print("REPRODUCED the process is aborted: %s" % [l for l in p.stderr.splitlines() if l.startswith("fatal error")][:1])
+            print("VIOLATION property=%s replay=%s" % (ctx.pid, path))
+            return 1
+        print("not reproduced")
+        return 0
     plan = ctx.path("plan.ndjson")
     ctx.model_check("MCOutcome", "MCOutcome.cfg", workers=4, env={"OUT": plan})
     ctx.run([vd, "crash-run", "-repo", core.REPO, "-plan", plan, "-seed", str(ctx.seed), "-cap", "0", "-bytes", "0", "-bulk", bulk,
